@@ -984,11 +984,13 @@ func SplitMrt(data []byte, atEOF bool) (advance int, token []byte, err error) {
 	if errh != nil {
 		return 0, nil, errh
 	}
-	totlen := int(hdr.Len + MRT_COMMON_HEADER_LEN)
-	if len(data) < totlen { // need to read more
+	// 64-bit arithmetic: a Length close to 2^32 must not wrap around to a
+	// record shorter than its own header.
+	totlen := uint64(hdr.Len) + MRT_COMMON_HEADER_LEN
+	if uint64(len(data)) < totlen { // need to read more
 		return 0, nil, nil
 	}
-	return totlen, data[:totlen], nil
+	return int(totlen), data[:totlen], nil
 }
 
 func ParseBody(data []byte, h *MRTHeader) (*MRTMessage, error) {
